@@ -19,8 +19,27 @@ from fractions import Fraction
 import numpy as np
 from common import *
 
-IMPORTS = ("From CV Require Import Base.Cmp Model.C10_Conj.\n"
-           "From Coq Require Import QArith String. Open Scope string_scope.")
+IMPORTS = ("From CV Require Import Base.Cmp Base.LinAlg Model.C10_Conj Model.C10_ConjR.\n"
+           "From Coq Require Import QArith Reals String.\nFrom Interval Require Import Tactic.\nOpen Scope string_scope.")
+
+# ENCLOSURE cases: the R-valued likelihood formulas the theorems are about, evaluated on the case's inputs by `interval`
+ENC_TAC = ("unfold lik_gmrf, gmrf_logpdf, lik_gauss_cov, lik_gauss_prec, from_cov_scalar, from_prec_scalar, gaussian_of, gaussian_logpdf, "
+           "Rdot, Rmatvec, Rvsub, Rnormsq, Rmscale, Rident, Rvscale, normsq, gmrf_code_rank; "
+           "cbn [dot matvec vsub vscale map seq unit_vec vzero repeat length INR Nat.sub]; interval with (i_prec 80).")
+
+
+def cr(x):
+    f = frac(x)
+    return "(IZR (%d))" % f.numerator if f.denominator == 1 else "(IZR (%d) / IZR %d)" % (f.numerator, f.denominator)
+
+
+def crvec(v):
+    return "[" + "; ".join(cr(a) for a in v) + "]"
+
+
+def crmat(m):
+    return "[" + "; ".join(crvec(r) for r in m) + "]"
+
 RULE = ("cells: family {Gaussian cov=1/s, prec=s, prec=s*ones(m), legacy-only cov=C/s; GMRF order 0/1/2 x bc zero/periodic/neumann x 1-d/2-d; "
         "RegularizedGaussian/RegularizedGMRF(nonnegativity)} x interface {experimental, legacy} x route {Posterior built directly, "
         "JointDistribution conditioned as Gibbs does, with a linear forward model} x {shape, rate}; dims 2..6 (2-d: 2x2, 3x3), dyadic data; "
@@ -427,6 +446,21 @@ def sample_cases(ctx, spec, iface, cell):
     expr = "check_rate %s %s %s %s %s %s %s %s %s" % (cnat(n), cqmat(P), cq(reg), cqmat(L), cqvec(Ax), cqvec(b), cq(beta),
                                                       cq(Fraction(1) / frac(scale_obs)), cq(scale_obs))
     cases.append(Case(expr=expr, meta=dict(meta, part="rate"), cell=cell + "/rate", kind="EXACT", impl_fail=fail, signature=sig))
+    # --- the likelihood's dependence on the hyper-parameter: model formula (R) vs the implementation's likelihood.logd
+    form = None
+    if fam == "gmrf" and n <= 6:
+        form = "lik_gmrf (fun s => s) (gmrf_code_rank %s %s) 0 %s %s %s" % (bc_coq(spec["bc"]), cnat(n), crmat(P), crvec(Ax), crvec(b))
+    elif fam == "gaussian" and spec["dep"]["shape"] is None and spec["var"] in ("cov", "prec") and spec["dep"]["entries"][0] in (V(), Inv(V())):
+        form = ("lik_gauss_cov (fun s => 1 / s) %s %s" if spec["var"] == "cov" else "lik_gauss_prec (fun s => s) %s %s") % (crvec(Ax), crvec(b))
+    if form:
+        s1, s2 = ctx.rng.choice([(2, 1), (4, 1), (3, 2), (Fraction(1, 2), 2), (4, Fraction(1, 2))])
+        with QUIET:
+            l1 = float(np.ravel(np.asarray(target.likelihood.logd(np.array([float(s1)])), dtype=float))[0])
+            l2 = float(np.ravel(np.asarray(target.likelihood.logd(np.array([float(s2)])), dtype=float))[0])
+        if math.isfinite(l1) and math.isfinite(l2):
+            tol = Fraction(1, 10 ** 9) * (1 + frac(abs(l1)) + frac(abs(l2)))
+            expr = "(Rabs (%s %s - %s %s - %s) <= %s)%%R" % (form, cr(s1), form, cr(s2), cr(l1 - l2), cr(tol))
+            cases.append(Case(expr=expr, meta=dict(meta, part="lik-form", s1=str(s1), s2=str(s2)), cell=cell + "/lik-form", kind="ENCLOSURE", tac=ENC_TAC))
     return cases
 
 
